@@ -5,7 +5,7 @@ nothing about how /verif decides anything."""
 import json, os, sys, glob
 VERIF = os.path.dirname(os.path.dirname(os.path.abspath(__file__)))
 rnd, outroot, wtp = sys.argv[1], sys.argv[2], sys.argv[3]
-tmpl = open(os.path.join(VERIF, "tools", "seedtask7.tmpl" if int(rnd) >= 7 else "seedtask.tmpl")).read()
+tmpl = open(os.path.join(VERIF, "tools", ("seedtask8.tmpl" if int(rnd) >= 8 else "seedtask7.tmpl") if int(rnd) >= 7 else "seedtask.tmpl")).read()
 for line in open(os.path.join(VERIF, "properties.jsonl")):
     p = json.loads(line)
     pid = p["id"]
